@@ -339,8 +339,14 @@ class World:
                     script['calls'].append(['setBody', r.choice(got), r.randrange(1000)])
                 elif z < 0.8 and got:
                     script['calls'].append(['setAssoc', r.choice(got), r.choice(['no', 'pre', 'assoc', 'dis'])])
-                elif z < 0.95 and cds:
+                elif z < 0.88 and cds:
                     script['calls'].append(['disassociateAll', r.choice(cds), r.choice([None] + chs[:2])])
+                elif z < 0.95 and cds:
+                    # add_state with a container built by the application; sometimes with the handle of an existing state
+                    h = r.choice(chs) if (chs and r.random() < 0.35) else f'as{self.new_n}'
+                    self.new_n += 1
+                    script['calls'].append(['addState', r.choice(cds), h, r.randrange(1000)])
+                    got.append(h)
                 elif chs:
                     script['calls'].append(['del', r.choice(chs) if r.random() < 0.8 else 'nohandle'])
         else:
@@ -618,6 +624,19 @@ class World:
                     st = mgr.mk_context_state(dh, h if explicit else None, set_associated=assoc)
                 finally:
                     self._tr.uuid = orig
+                info['handed'][h] = st
+            elif op == 'addState':
+                _, dh, h, n = call
+                d = m.descriptions.handle.get_one(dh, allow_none=True)
+                if d is None or not d.is_context_descriptor:
+                    return
+                st = m.data_model.mk_state_container(d)
+                st.Handle = h
+                st.descriptor_container = None
+                self.mutate_state(st, n)
+                # add_state(container) = mk_context_state with an explicit handle + the content of the container
+                self.emit(f'mk {H(dh)} {H(h)} 1 0 {self.sbody(st)} {int(self.clock.t)}', 'ok')
+                mgr.add_state(st)
                 info['handed'][h] = st
             elif op == 'setBody':
                 st = info['handed'].get(call[1])
